@@ -287,7 +287,7 @@ func roundTrip(ad *schema.Advertisement, codec uint64) (*schema.Advertisement, e
 
 func TestCheck(t *testing.T) {
 	r := vp.New("C05", "exploration",
-		"advertisements: product of {previous link} x {entries: NoEntries/real} x {0..2 addresses} x {metadata empty/non-empty} x {IsRm} x {extended providers: none, main only, 2, 3 (main at every position)} x {override} x {context ID 0/1/64 bytes}; signer = provider and signer != provider; key types per tier. For each signed ad: verify, verify after DAG-JSON and DAG-CBOR round trip, every single-value mutation (27 kinds), and for representative ads every single-bit flip and field-level replacement inside every signature envelope, and every assignment of signing keys {named identity, ad signer, unrelated} to the extended-provider entries. Non-trivial: every case other than verifying the untouched ad. Distinct = distinct (ad shape, keys, check).",
+		"advertisements: product of {previous link} x {entries: NoEntries/real} x {0..2 addresses} x {metadata empty/non-empty} x {IsRm} x {extended providers: none, main only, 2, 3 (main at every position)} x {override} x {context ID 0/1/64 bytes}; signer = provider and signer != provider (also with the signer itself listed as an extended provider); key types per tier. For each signed ad: verify, verify after DAG-JSON and DAG-CBOR round trip, every single-value mutation (27 kinds), and for representative ads every single-bit flip and field-level replacement inside every signature envelope, and every assignment of signing keys {named identity, ad signer, unrelated} to the extended-provider entries. Non-trivial: every case other than verifying the untouched ad. Distinct = distinct (ad shape, keys, check).",
 		"mutations that change no signed value (context ID of an ad without extended providers) must still verify",
 		"added/removed addresses are non-empty strings (an empty address does not change the undelimited signed payload, which the statement excludes)",
 		"envelope alterations are judged semantically (same decoded envelope = not an alteration)",
@@ -449,6 +449,35 @@ func TestCheck(t *testing.T) {
 				r.Violation("verify:panic:main-absent", key, firstLine(pm), nil)
 			} else if err == nil {
 				r.Violation("verify:accepted-without-main-provider", key, "verification succeeds although the main provider is not among the extended providers", nil)
+			}
+		}
+		// (f2) the same with the ad's own signer listed as an extended provider:
+		// "the main provider is listed" is about the identity an entry names,
+		// not about who signed it. The list [.., main, .., signer] is signed
+		// properly, then the main provider's entry is taken out.
+		if s.nEP >= 1 && signer.ID != c.main.ID {
+			key := base + "|main-absent-signer-listed"
+			r.Eval(key, true)
+			m := cloneAd(ad)
+			m.ExtendedProvider.Providers = append(m.ExtendedProvider.Providers, schema.Provider{ID: signer.ID.String(), Addresses: []string{"/ip4/9.9.9.9/tcp/9"}, Metadata: []byte("publisher-as-provider")})
+			var serr error
+			if pn, pm := vp.Guard(func() { serr = m.SignWithExtendedProviders(signer.Priv, c.keyFor) }); pn || serr != nil {
+				r.Violation("sign:error:signer-listed", key, fmt.Sprint(serr, firstLine(pm)), nil)
+			} else if _, err, pn, pm := verify(m); pn || err != nil {
+				r.Violation("verify:rejected-own-signature:signer-listed", key, fmt.Sprint(err, firstLine(pm)), nil)
+			} else {
+				var keep []schema.Provider
+				for _, p := range m.ExtendedProvider.Providers {
+					if p.ID != m.Provider {
+						keep = append(keep, p)
+					}
+				}
+				m.ExtendedProvider.Providers = keep
+				if _, err, pn, pm := verify(m); pn {
+					r.Violation("verify:panic:main-absent", key, firstLine(pm), nil)
+				} else if err == nil {
+					r.Violation("verify:accepted-without-main-provider:signer-listed", key, "verification succeeds although the main provider is not among the extended providers (the ad's signer is listed and its entry verifies)", nil)
+				}
 			}
 		}
 		if !deep {
